@@ -1109,18 +1109,18 @@ func replaceAll(x, y Value) {
 func replace(instr Instruction, x, y Value) {
 	args := instr.Operands(nil)
 	matched := false
+	yrefs := y.Referrers()
 	for _, arg := range args {
 		if *arg == x {
 			*arg = y
 			matched = true
+			// one referrer entry per operand slot, as buildReferrers and replaceAll do
+			if yrefs != nil {
+				*yrefs = append(*yrefs, instr)
+			}
 		}
 	}
 	if matched {
-		yrefs := y.Referrers()
-		if yrefs != nil {
-			*yrefs = append(*yrefs, instr)
-		}
-
 		xrefs := x.Referrers()
 		if xrefs != nil {
 			*xrefs = removeInstr(*xrefs, instr)
